@@ -333,6 +333,11 @@ func (c *Trait) NotifyDeleted(ctx context.Context, key []byte) {
 
 // NotifyExpiredAll collects logs and metrics.
 func (c *Trait) NotifyExpiredAll(ctx context.Context, start time.Time, cnt int) {
+	// Entries that never expire got an expiration, same as if they arrived with it (see entryRestored).
+	if cnt > 0 {
+		c.entryRestored(ts(start))
+	}
+
 	if c.Log.logImportant != nil {
 		c.Log.logImportant(ctx, "expired all entries in cache",
 			"name", c.Config.Name,
